@@ -395,6 +395,27 @@ func c28Programs() []c28Prog {
 		a.mark("init").raw(initCode)
 		add("create-and-call", a.bytes(), ok(cat(c28Word(0xa1), c28Word(1))))
 	}
+	// CREATE2 onto a pre-funded, code-less account (it exists, so its code hash is the empty-code hash, not zero) with init
+	// codes of the jump family: the analysis of init code must never be shared between deployments
+	c28PreFunded = nil
+	for _, ic := range c28InitFamily() {
+		switch ic.name {
+		case "A1", "B1", "A3", "B3":
+			a := c28New().push(uint64(len(ic.code))).pushLabel("init").push(0).op(CODECOPY)
+			a.push(0x5a17).push(uint64(len(ic.code))).push(0).push(0).op(CREATE2)
+			a.op(DUP1).push(0x800).op(MSTORE).op(EXTCODESIZE).push(0x820).op(MSTORE)
+			a.ret(0x800, 64)
+			a.mark("init").raw(ic.code)
+			self := c28Addr(len(ps) + 1)
+			target := crypto.CreateAddress2(self, common.Hash{30: 0x5a, 31: 0x17}, crypto.Keccak256(ic.code))
+			c28PreFunded = append(c28PreFunded, target)
+			want := cat(c28Word(0), c28Word(0))
+			if ic.valid {
+				want = cat(common.LeftPadBytes(target.Bytes(), 32), c28Word(uint64(len(c28InitRuntime))))
+			}
+			add("create2-funded-target-"+ic.name, a.bytes(), ok(want))
+		}
+	}
 	// ---- precompiles (sha256/ripemd160/ecrecover/modexp results are cacheable, identity is not)
 	pre := func(name string, p byte, in []byte, out []byte) {
 		add(name, c28PreProg(p, in), ok(cat(c28Word(1), out)))
@@ -524,6 +545,13 @@ func c28NewEnv() *c28Env {
 	for _, c := range c28InheritContracts() {
 		deploy(c.addr, c.code)
 	}
+	for _, c := range c28CreationContracts() {
+		deploy(c.addr, c.code)
+	}
+	for _, a := range c28PreFunded {
+		sdb.CreateAccount(a)
+		sdb.AddBalance(a, uint256.NewInt(1), tracing.BalanceChangeUnspecified)
+	}
 	deploy(c28ForwarderAddr, c28Forwarder())
 	e.al = append(e.al, tuple(c28ForwarderAddr))
 	e.alFor = map[common.Address]types.AccessList{}
@@ -632,9 +660,17 @@ func (e *c28Env) runInput(evm *EVM, to, target common.Address, input []byte, gas
 
 // runTop prepares a fresh copy of the base state on evm and executes f (any EVM entry point) as the top-level frame.
 func (e *c28Env) runTop(evm *EVM, f func() ([]byte, GasBudget, error)) c28Result {
+	return e.runTopPrep(evm, nil, f)
+}
+
+// runTopPrep is runTop with a modification of the fresh state copy before the transaction starts.
+func (e *c28Env) runTopPrep(evm *EVM, prep func(*state.StateDB), f func() ([]byte, GasBudget, error)) c28Result {
 	sdb, err := state.New(e.root, e.db)
 	if err != nil {
 		panic(err)
+	}
+	if prep != nil {
+		prep(sdb)
 	}
 	sdb.Prepare(e.rules, c28Origin, evm.Context.Coinbase, nil, e.pre, e.al)
 	evm.StateDB = sdb
@@ -954,6 +990,11 @@ func TestVerif_C28(t *testing.T) {
 			dirtProgs = P
 		}
 		c28Inherited(r, env, dirtProgs)
+		if r.Expired() {
+			return
+		}
+		// ---- (f) creations x target account kinds x jump family init codes
+		c28Creations(r, env)
 		if onlyGrid {
 			r.NotExhaustive("VERIF_C28_PART=grid: sequence and depth parts skipped")
 		}
@@ -1690,6 +1731,190 @@ func c28Inherited(r *mc.R, env *c28Env, dirtiers []c28Prog) {
 func (e *c28Env) finishCall(evm *EVM, parent common.Address) c28Result {
 	return e.runTop(evm, func() ([]byte, GasBudget, error) {
 		return evm.Call(c28Origin, parent, nil, NewGasBudget(c28OuterGas, 0), uint256.NewInt(c28InhTopVal))
+	})
+}
+
+// ---------------------------------------------------------------------------
+// (f) contract creations: creation transaction / CREATE / CREATE2 x target account kind x init codes of a jump family
+
+var (
+	c28PreFunded   []common.Address
+	c28InitRuntime = []byte{0x00}
+	c28FactoryAddr = [2]common.Address{c28Addr(3500), c28Addr(3501)} // CREATE, CREATE2 with init code = call data
+	c28CreatorEOA  = common.HexToAddress("0xc4ea7e0000000000000000000000000000000028")
+)
+
+type c28Init struct {
+	name  string
+	code  []byte
+	valid bool // the jump it takes is valid: the deployment succeeds
+}
+
+// c28InitFamily: init codes that jump to an offset p; p is a JUMPDEST in the A codes and PUSH data in the B codes (and the
+// other way round for pair 3); pair 1 and 3 have equal lengths, pair 2 different lengths; N takes no jump.
+func c28InitFamily() []c28Init {
+	tail := func(a *c28Asm) []byte { // deploy a one-byte runtime code
+		return a.push(uint64(len(c28InitRuntime))).push(0).op(RETURN).bytes()
+	}
+	var out []c28Init
+	out = append(out, c28Init{"A1", tail(c28New().push(6).op(JUMP, STOP).push(0).op(JUMPDEST)), true})
+	out = append(out, c28Init{"B1", tail(c28New().push(6).op(JUMP, STOP).raw([]byte{byte(PUSH2), 0x00, 0x5b})), false})
+	farCode := func(blocks int, valid bool) []byte {
+		a := c28New()
+		if valid {
+			a.pushLabel("end")
+		} else {
+			a.pushBytes([]byte{0, byte(4 + 34*(blocks-1) + 10)}) // PUSH2: an 0x5b inside the last PUSH32
+		}
+		a.op(JUMP)
+		for i := 0; i < blocks; i++ {
+			a.pushBytes(bytes.Repeat([]byte{0x5b}, 32)).op(POP)
+		}
+		a.label("end")
+		return tail(a)
+	}
+	out = append(out, c28Init{"A2", farCode(3, true), true})
+	out = append(out, c28Init{"B2", farCode(5, false), false})
+	// pair 3: offset 8 is a JUMPDEST in A3 and offset 5 is push data there; B3 jumps to 5 (a JUMPDEST in B3)
+	out = append(out, c28Init{"A3", tail(c28New().push(8).op(JUMP).pushBytes([]byte{0x5b, 0x5b, 0x5b, 0x5b}).op(JUMPDEST)), true})
+	out = append(out, c28Init{"B3", tail(c28New().push(5).op(JUMP, STOP, STOP, JUMPDEST, JUMPDEST, JUMPDEST, JUMPDEST)), true})
+	out = append(out, c28Init{"N", tail(c28New().push(1).op(POP)), true})
+	return out
+}
+
+func c28CreationContracts() []c28Deployed {
+	mk := func(create2 bool) []byte {
+		a := c28New()
+		a.op(CALLDATASIZE).push(0).push(0).op(CALLDATACOPY)
+		if create2 {
+			a.push(0x5a17)
+		}
+		a.op(CALLDATASIZE).push(0).push(0)
+		if create2 {
+			a.op(CREATE2)
+		} else {
+			a.op(CREATE)
+		}
+		a.op(DUP1).push(0x800).op(MSTORE).op(EXTCODESIZE).push(0x820).op(MSTORE)
+		return a.ret(0x800, 64).bytes()
+	}
+	return []c28Deployed{{c28FactoryAddr[0], mk(false)}, {c28FactoryAddr[1], mk(true)}}
+}
+
+type c28Deployment struct {
+	method string // "tx", "CREATE", "CREATE2"
+	target string // "absent", "funded", "occupied"
+	init   c28Init
+}
+
+func (d c28Deployment) String() string { return d.method + "/" + d.target + "/" + d.init.name }
+
+func (d c28Deployment) targetAddr() common.Address {
+	switch d.method {
+	case "tx":
+		return crypto.CreateAddress(c28CreatorEOA, 0)
+	case "CREATE":
+		return crypto.CreateAddress(c28FactoryAddr[0], 1)
+	default:
+		return crypto.CreateAddress2(c28FactoryAddr[1], common.Hash{30: 0x5a, 31: 0x17}, crypto.Keccak256(d.init.code))
+	}
+}
+
+func (e *c28Env) runDeployment(evm *EVM, d c28Deployment) c28Result {
+	prep := func(sdb *state.StateDB) {
+		sdb.CreateAccount(c28CreatorEOA)
+		sdb.AddBalance(c28CreatorEOA, uint256.NewInt(1_000_000), tracing.BalanceChangeUnspecified)
+		switch d.target {
+		case "funded":
+			sdb.AddBalance(d.targetAddr(), uint256.NewInt(7), tracing.BalanceChangeUnspecified)
+		case "occupied":
+			sdb.SetNonce(d.targetAddr(), 1, tracing.NonceChangeGenesis)
+		}
+	}
+	return e.runTopPrep(evm, prep, func() ([]byte, GasBudget, error) {
+		gas := NewGasBudget(5_000_000, 0)
+		switch d.method {
+		case "tx":
+			ret, _, left, err := evm.Create(c28CreatorEOA, d.init.code, gas, new(uint256.Int))
+			return ret, left, err
+		case "CREATE":
+			return evm.Call(c28CreatorEOA, c28FactoryAddr[0], d.init.code, gas, new(uint256.Int))
+		default:
+			return evm.Call(c28CreatorEOA, c28FactoryAddr[1], d.init.code, gas, new(uint256.Int))
+		}
+	})
+}
+
+func c28Creations(r *mc.R, env *c28Env) {
+	var deps []c28Deployment
+	for _, m := range []string{"tx", "CREATE", "CREATE2"} {
+		for _, t := range []string{"absent", "funded", "occupied"} {
+			for _, ic := range c28InitFamily() {
+				deps = append(deps, c28Deployment{m, t, ic})
+			}
+		}
+	}
+	r.Bound("creations.deployments", len(deps))
+	// each deployment alone on a cold EVM
+	bevm := env.newEVM()
+	cold := make([]c28Result, len(deps))
+	for i, d := range deps {
+		c28Pristine(bevm)
+		cold[i] = env.runDeployment(bevm, d)
+		c := map[string]any{"part": "creation-cold", "deployment": d.String()}
+		r.Case(c, func() error {
+			// result known by construction
+			res := cold[i]
+			okWanted := d.target != "occupied" && d.init.valid
+			if d.method == "tx" {
+				if okWanted != (res.err == "") {
+					return fmt.Errorf("creation transaction %s: error %q, deployment expected to succeed: %v", d, res.err, okWanted)
+				}
+				if okWanted && !bytes.Equal(res.ret, c28InitRuntime) {
+					return fmt.Errorf("creation transaction %s deployed %x", d, res.ret)
+				}
+			} else {
+				want := bytes.Join([][]byte{c28Word(0), c28Word(0)}, nil)
+				if okWanted {
+					want = bytes.Join([][]byte{common.LeftPadBytes(d.targetAddr().Bytes(), 32), c28Word(uint64(len(c28InitRuntime)))}, nil)
+				}
+				if res.err != "" || !bytes.Equal(res.ret, want) {
+					return fmt.Errorf("%s: factory returned %s / %q, expected by construction %s", d, c28Hex(res.ret), res.err, c28Hex(want))
+				}
+			}
+			return nil
+		})
+		switch {
+		case d.target == "occupied":
+			r.Outcome("creation_collision")
+		case d.init.valid:
+			r.Outcome("creation_ok")
+		default:
+			r.Outcome("creation_invalid_jump")
+		}
+		r.DistinctHash(mc.Hash64("creation-cold" + d.String()))
+	}
+	// every ordered pair (x, y) on one EVM (shared jumpdest cache and arena): y must reproduce its cold run
+	r.Parallel(len(deps), func(xi int) {
+		evm := env.newEVM()
+		defer evm.Release()
+		for yi := range deps {
+			if r.Expired() {
+				return
+			}
+			c := map[string]any{"part": "creation-pair", "first": deps[xi].String(), "second": deps[yi].String()}
+			r.Case(c, func() error {
+				evm.jumpDests = newMapJumpDests() // the pair starts on a cold cache; the arena stays shared
+				if d := env.runDeployment(evm, deps[xi]).diff(cold[xi]); d != "" {
+					return fmt.Errorf("%s on a cold cache differs from its isolated run: %s", deps[xi], d)
+				}
+				if d := env.runDeployment(evm, deps[yi]).diff(cold[yi]); d != "" {
+					return fmt.Errorf("%s after %s on the same EVM (shared jump destination cache) differs from its isolated run: %s", deps[yi], deps[xi], d)
+				}
+				return nil
+			})
+			r.DistinctHash(mc.Hash64("creation-pair" + deps[xi].String() + deps[yi].String()))
+		}
 	})
 }
 
